@@ -17,7 +17,7 @@
      many as the first. *)
 From Coq Require Import ZArith List Bool.
 From Knut Require Import Model.Bytes Model.Csv Model.ImpCommonA Model.CsvImp Proofs.CsvProofs Proofs.CsvRoundtrip.
-From Knut Require Import Model.CsvLatin1 Proofs.CsvLatin1Proofs.
+From Knut Require Import Model.CsvLatin1 Proofs.CsvLatin1Proofs Spec.CsvSettings Proofs.CsvLazy.
 Import ListNotations.
 Open Scope Z_scope.
 
@@ -201,3 +201,34 @@ Proof. vm_compute. reflexivity. Qed.
 Example C13_supercard_example_header :
   csv_items_supercard [115;101;112;61;59;10; 97;59;98;10] = [CRec [[115;101;112;61]; []]; CBad].
 Proof. vm_compute. reflexivity. Qed.
+
+(* ---------------------------------------------------------------- what LazyQuotes can change *)
+(* Whatever a reader accepts - every record read, io.EOF reached - the same reader with LazyQuotes = true reads in the
+   same way.  For the importers with a strict reader (swisscard2, swisscard, revolut2, revolut, wise; supercard below)
+   switching LazyQuotes on therefore changes nothing on any statement the importer gets records from: the setting shows
+   only on statements the strict reader rejects (the damaged kind `quote` of harness/c13a.go, c13b.go). *)
+Theorem C13_csv_lazy_conservative : forall (cfg : csv_cfg) (input : str) (rs : list (list str)),
+  csv_read_all cfg input = CsvRecords rs -> csv_read_all (set_lazy cfg) input = CsvRecords rs.
+Proof. exact csv_read_all_lazy. Qed.
+Print Assumptions C13_csv_lazy_conservative.
+
+Theorem C13_csv_set_lazy_conservative : forall (cfg : csv_cfg) (sets : list Z) (input : str) (rs : list (list str)),
+  csv_read_all_set cfg sets input = CsvRecords rs -> csv_read_all_set (set_lazy cfg) sets input = CsvRecords rs.
+Proof. exact csv_read_all_set_lazy. Qed.
+Print Assumptions C13_csv_set_lazy_conservative.
+
+(* revolut2.go with `p.reader.LazyQuotes = true` added is set_lazy cfg_revolut2; the hypothesis is satisfiable (a
+   statement line with a padded, quoted description); the converse fails: a bare quote is rejected by the strict reader
+   and read by the lazy one *)
+Example C13_csv_lazy_revolut2 : set_lazy cfg_revolut2 = mk_cfg 44 10 true true.
+Proof. reflexivity. Qed.
+Definition ex_r2_line : str :=
+  [97;44;98;44;99;44;100;44;32;34;120;44;32;34;34;121;34;34;34;44;49;44;48;44;67;44;79;75;44;50;13;10].
+Example C13_csv_lazy_example_accepted :
+  csv_read_all cfg_revolut2 ex_r2_line = CsvRecords [[[97];[98];[99];[100];[120;44;32;34;121;34];[49];[48];[67];[79;75];[50]]] /\
+  csv_read_all (set_lazy cfg_revolut2) ex_r2_line = csv_read_all cfg_revolut2 ex_r2_line.
+Proof. vm_compute. split; reflexivity. Qed.
+Example C13_csv_lazy_example_rejected :
+  csv_read_all (mk_cfg 44 2 false true) [97;34;98;44;99;10] = CsvError [] ErrBareQuote /\
+  csv_read_all (set_lazy (mk_cfg 44 2 false true)) [97;34;98;44;99;10] = CsvRecords [[[97;34;98];[99]]].
+Proof. vm_compute. split; reflexivity. Qed.
